@@ -1,16 +1,48 @@
 from vlib import H
 PROPERTY = 'C05'
 LEVEL = 'model_checking'
-CLAIM = ('placeholder')
+CLAIM = ('Timelock and maturity kernels executed symbolically on the real code and compared with references written from BIP65/68/113 and the property text: '
+         '(1) IsFinalTx == [nLockTime==0 or nLockTime strictly below the block height (nLockTime<500,000,000) resp. the cutoff time, or every input SEQUENCE_FINAL], full 32/32/64-bit domain, nin<=3, '
+         'incl. the exactly-at-the-lock / one-past boundaries; (2) CBlockIndex::GetMedianTimePast (real std::sort) == rank-n/2 element of the last min(11,height+1) timestamps on real pprev-linked chains; '
+         '(3) CalculateSequenceLocks/EvaluateSequenceLocks/SequenceLocks on a real CBlockIndex chain with real GetAncestor/BuildSkip/GetMedianTimePast: returned (height,time) pair and verdict equal the BIP68 reference '
+         '(version>=2 and flag, disable bit 31, type bit 22, 16-bit value, 512 s granularity, time measured from the MTP of the block before the coin\'s block, first valid height = coinHeight+value) for all 32-bit nSequence values; '
+         '(4) Consensus::CheckTxInputs rejects with bad-txns-premature-spend-of-coinbase iff some coinbase input has spendHeight-coinHeight<100, all 31-bit coin heights and non-negative spend heights.')
 LINK = ['consensus/tx_verify.cpp', 'primitives/transaction.cpp', 'script/script.cpp', 'uint256.cpp', 'hash.cpp']
+ISORT = '_ZSt22__final_insertion_sortIPlN9__gnu_cxx5__ops15_Iter_less_iterEEvT_S4_T0_'
+HASHSTUB = 'CSHA256 replaced by unconstrained-output model (txid values are irrelevant to these functions)'
 HARNESSES = [
-    H('isfinal', 'isfinal.cpp', 'h_isfinal', link=LINK, variants=[{'NIN': n} for n in (0, 1, 2, 3)],
+    H('isfinal', 'isfinal.cpp', 'h_isfinal', link=LINK, variants=[{'NIN': n} for n in (0, 1, 2)], tvariants=[{'NIN': n} for n in (0, 1, 2, 3)],
       functions=['IsFinalTx (consensus/tx_verify.cpp)', 'CTransaction::CTransaction(CMutableTransaction&&)'],
-      stubs=['CSHA256 replaced by unconstrained-output model (txid irrelevant)'],
-      unwind=8, timeout=120, objbits=10,
-      bounds='nin 0..3; nLockTime all 32 bits, nSequence all 32 bits, height all int32, time all int64'),
-    H('seqlocks', 'seqlocks.cpp', 'h_seqlocks', link=LINK + ['chain.cpp'], variants=[{'L': 2, 'NIN': 1}, {'L': 3, 'NIN': 2}],
+      stubs=[HASHSTUB], unwind=8, timeout=300, objbits=10,
+      bounds='nin 0..2 (thorough 0..3); nLockTime all 32 bits, every nSequence all 32 bits, height all int32, time all int64'),
+    H('mtp', 'mtp.cpp', 'h_mtp', link=[],
+      variants=[{'L': n} for n in (1, 2, 3, 6)] + [{'L': 12, 'MONO': 1}, {'L': 13, 'MONO': 1}, {'L': 12, 'TBITS': 3}],
+      tvariants=[{'L': n} for n in (1, 2, 3, 4, 5, 6, 7)] + [{'L': n, 'MONO': 1} for n in (10, 11, 12, 13, 14)] + [{'L': 11, 'TBITS': 3}, {'L': 12, 'TBITS': 2}, {'L': 12, 'TBITS': 3}, {'L': 13, 'TBITS': 3}],
+      functions=['CBlockIndex::GetMedianTimePast (chain.h, std::sort from libstdc++ headers)'],
+      unwind=64, unwindset=','.join('%s.%d:13' % (ISORT, k) for k in (6, 7, 8, 9)), timeout=600, objbits=10,
+      bounds='arbitrary (non-monotone) full 32-bit timestamps for chains of 1,2,3,6 blocks (thorough 1..7); 11-block window (chains of 12,13 blocks): '
+             '(a) full 32-bit timestamps assumed non-decreasing, (b) arbitrary order with timestamps in [1600000000, 1600000000+7] (3-bit offsets; 4-bit offsets, which would cover '
+             'every order pattern of 11 values, do not finish in 100 s and are NOT claimed)'),
+    H('seqlocks', 'seqlocks.cpp', 'h_seqlocks', link=LINK + ['chain.cpp'],
+      variants=[{'L': 2, 'NIN': 1}, {'L': 2, 'NIN': 2}, {'L': 3, 'NIN': 2, 'MONO': 1}, {'L': 3, 'NIN': 2, 'COMPOSED': 1, 'MONO': 1}],
+      tvariants=[{'L': 2, 'NIN': 1}, {'L': 2, 'NIN': 2}, {'L': 2, 'NIN': 2, 'COMPOSED': 1}, {'L': 3, 'NIN': 1}, {'L': 3, 'NIN': 2, 'MONO': 1}, {'L': 3, 'NIN': 2, 'COMPOSED': 1, 'MONO': 1},
+                 {'L': 4, 'NIN': 1}, {'L': 4, 'NIN': 2, 'MONO': 1}],
       functions=['CalculateSequenceLocks', 'EvaluateSequenceLocks', 'SequenceLocks (consensus/tx_verify.cpp)', 'CBlockIndex::GetMedianTimePast (chain.h, std::sort)', 'CBlockIndex::GetAncestor / BuildSkip (chain.cpp)'],
-      unwind=16, unwindset='verif_ctlz.0:66', timeout=300, objbits=10,
-      bounds='chain of L existing blocks'),
+      stubs=[HASHSTUB, 'assertion_fail (util/check.cpp) replaced by a failing assertion'],
+      unwind=8, unwindset=lambda v: ','.join('%s.%d:%d' % (ISORT, k, min(v['L'], 11) + 1) for k in (6, 7, 8, 9)), timeout=600, objbits=10,
+      assumptions=['coin confirmation heights in [0, height of the evaluated block] (what ConnectBlock / the mempool pass)', 'MONO variants: block timestamps non-decreasing along the chain'],
+      bounds='real chain of L existing blocks (heights 0..L-1, skip pointers built by BuildSkip) plus the evaluated block at height L; L=2: nin 1..2 with arbitrary 32-bit timestamps; '
+             'L=3: nin=2 with non-decreasing 32-bit timestamps; version, flags, every nSequence full 32-bit symbolic; coin heights symbolic in 0..L (the real functions run once per coin-height combination)'),
+    H('seqlocks_long', 'seqlocks.cpp', 'h_seqlocks', link=LINK + ['chain.cpp'], tier='thorough', variants=[{'L': 12, 'NIN': 1, 'MONO': 1}],
+      functions=['CalculateSequenceLocks', 'EvaluateSequenceLocks (consensus/tx_verify.cpp)', 'CBlockIndex::GetMedianTimePast with a full 11-block window', 'CBlockIndex::GetAncestor over real skip pointers (chain.cpp)'],
+      stubs=[HASHSTUB, 'assertion_fail (util/check.cpp) replaced by a failing assertion'],
+      unwind=16, unwindset=','.join('%s.%d:13' % (ISORT, k) for k in (6, 7, 8, 9)), timeout=1500, objbits=10,
+      assumptions=['block timestamps non-decreasing along the chain'],
+      bounds='chain of 12 existing blocks (full 11-block MTP window, skip pointers used), one input, coin height symbolic in 0..12'),
+    H('maturity', 'maturity.cpp', 'h_maturity', link=LINK, variants=[{'NIN': 1}, {'NIN': 2}], tvariants=[{'NIN': 1}, {'NIN': 2}, {'NIN': 3}], nofmt=True,
+      functions=['Consensus::CheckTxInputs (consensus/tx_verify.cpp): coinbase maturity branch', 'Coin::IsCoinBase'],
+      stubs=[HASHSTUB, 'CCoinsViewCache::HaveInputs/AccessCoin answered from a harness coin table (phantom view object)', 'FormatMoney -> empty string', 'tinyformat: strprintf returns empty strings (ref/nofmt/tinyformat.h)'],
+      assumptions=['all inputs present/unspent with values in [0, MAX_MONEY/nin] and a zero-value output, so that only the maturity rule can fail (the other CheckTxInputs rules: C01)'],
+      unwind=12, memunwind=104, timeout=600, objbits=10,
+      bounds='nin 1..2 (thorough 3); coin height all 31 bits, spend height all of 0..INT_MAX, coinbase flag symbolic'),
 ]
